@@ -119,7 +119,17 @@ func tokenize(s string) ([]token, error) {
 			if n, ok := keywords[strings.ToUpper(bt)]; ok {
 				tnr = n
 			}
-			res = append(res, stoken(tnr, bt))
+			tok := stoken(tnr, bt)
+			if tnr == tBare && len(res) > 0 && res[len(res)-1].typ == DEFAULT {
+				// SQLite reads a bare TRUE or FALSE as the integer 1 or 0
+				switch strings.ToUpper(bt) {
+				case "TRUE":
+					tok = ntoken(1)
+				case "FALSE":
+					tok = ntoken(0)
+				}
+			}
+			res = append(res, tok)
 			i += bl - l
 		case unicode.IsDigit(c) || c == '.':
 			tok, l := readNumericLiteral(s[i:])
